@@ -198,7 +198,10 @@ func (c *conn) handleSubscribe(in *inEnvelope) error {
 		c.logger.FinishExecution(ctx, tags, time.Since(start))
 
 		if err != nil {
-			if ErrorCause(err) == context.Canceled {
+			// The run was cancelled (the subscription or the connection is going
+			// away): nobody is left to report to. A resolver that merely returns
+			// context.Canceled while the run goes on is an ordinary failure.
+			if ErrorCause(err) == context.Canceled && ctx.Err() != nil {
 				verifConn("run.fail", id, &initial)
 				go c.closeSubscriptionOf(id, &runner, &initial)
 				return nil, err
